@@ -42,7 +42,7 @@ pub struct SerdeCase {
 pub const FAMILIES: &[&str] = &[
     "bitvec", "bfv_usize", "bfv_u16", "bfv_u64", "addnumbits", "rank9", "ranksmall0", "ranksmall1", "ranksmall2", "ranksmall3", "ranksmall4", "select9", "sa", "sac", "sza", "szac", "ss2", "szs1",
     "sza(sa(rank9))", "szac(sac(ranksmall4))", "szs0(ss0)", "ef", "ef_seq", "ef_dict", "ef_seqdict", "rcl", "rcl_unsorted", "vfunc_bfv_shards", "vfunc_box_noshards_s1", "vfunc_fullsigs", "vfunc_mwhc",
-    "vfunc_str", "vfilter_box_u8", "vfilter_bfv", "vfilter_mwhc",
+    "vfunc_str", "vfilter_box_u8", "vfilter_bfv", "vfilter_mwhc", "bfv_u8", "bfv_u32", "vfunc_mwhc_noshards", "vfunc_noshards_s2", "vfilter_fullsigs", "vfilter_box_u64_s1", "sa_span", "rank9(sa)",
 ];
 
 struct SimSink {
@@ -263,7 +263,8 @@ macro_rules! d_ef_sd {
         let mut d: Digest = Vec::new();
         let step = (last / 500).max(1);
         let mut q = 0usize;
-        while q <= last + 2 {
+        // (queries above the universe bound misbehave on the original as well: that belongs to C04/C12)
+        while q <= last {
             let s = Succ::succ(x, q).map(|(i, v)| (i as u64) << 32 ^ v as u64).unwrap_or(u64::MAX);
             let p = Pred::pred(x, q).map(|(i, v)| (i as u64) << 32 ^ v as u64).unwrap_or(u64::MAX);
             d.push(s);
@@ -563,6 +564,30 @@ fn run_family(c: &SerdeCase, out: &mut Outcome) {
             }
             roundtrip!(BitFieldVec<u16>, &v, c, out, d_bfv, n);
         }
+        "bfv_u8" => {
+            let w = (c.seed % 9) as usize;
+            let mut v = BitFieldVec::<u8>::new(w, n);
+            for i in 0..n {
+                v.set(i, if w == 0 { 0 } else { (val(c.seed, i) as u8) & (u8::MAX >> (8 - w)) });
+            }
+            roundtrip!(BitFieldVec<u8>, &v, c, out, d_bfv, n);
+        }
+        "bfv_u32" => {
+            let w = 1 + (c.seed % 32) as usize;
+            let mut v = BitFieldVec::<u32>::new_unaligned(w, n);
+            for i in 0..n {
+                v.set(i, (val(c.seed, i) as u32) & (u32::MAX >> (32 - w)));
+            }
+            roundtrip!(BitFieldVec<u32>, &v, c, out, d_bfv, n);
+        }
+        "sa_span" => {
+            let s = SelectAdapt::with_span(AddNumBits::from(gen_bits(c)), 1 << (5 + c.seed % 10), (c.seed % 5) as usize);
+            roundtrip!(SelectAdapt<AddNumBits<BitVec>>, &s, c, out, d_sel, n);
+        }
+        "rank9(sa)" => {
+            let s = Rank9::new(SelectAdapt::with_inv(AddNumBits::from(gen_bits(c)), (c.seed % 12) as usize, (c.seed % 4) as usize));
+            roundtrip!(Rank9<SelectAdapt<AddNumBits<BitVec>>>, &s, c, out, d_rank_sel, n);
+        }
         "bfv_u64" => {
             let w = (c.seed % 65) as usize;
             let mut v = BitFieldVec::<u64>::new(w, n);
@@ -683,6 +708,10 @@ fn run_family(c: &SerdeCase, out: &mut Outcome) {
         "vfunc_fullsigs" => vf!(u64, BitFieldVec<u64>, [u64; 2], FuseLge3FullSigs, usize, (0..n).map(|i| mk_key::<usize>(c.seed, i)).collect(), (0..n).map(|i| val(c.seed, i) >> 20).collect()),
         "vfunc_mwhc" => vf!(usize, Box<[usize]>, [u64; 2], Mwhc3Shards, usize, (0..n).map(|i| mk_key::<usize>(c.seed, i)).collect(), (0..n).map(|i| i).collect()),
         "vfunc_str" => vf!(usize, BitFieldVec<usize>, [u64; 2], FuseLge3NoShards, String, (0..n).map(|i| mk_key::<String>(c.seed, i)).collect(), (0..n).map(|i| i % 1000).collect()),
+        "vfunc_mwhc_noshards" => vf!(u64, Box<[u64]>, [u64; 2], Mwhc3NoShards, u64, (0..n).map(|i| mk_key::<u64>(c.seed, i)).collect(), (0..n).map(|i| val(c.seed, i)).collect()),
+        "vfunc_noshards_s2" => vf!(u32, BitFieldVec<u32>, [u64; 2], FuseLge3NoShards, usize, (0..n).map(|i| mk_key::<usize>(c.seed, i)).collect(), (0..n).map(|i| (val(c.seed, i) >> 40) as u32).collect()),
+        "vfilter_fullsigs" => vfl!(bfv, u64, BitFieldVec<u64>, [u64; 2], FuseLge3FullSigs, 1 + (c.seed % 64) as usize),
+        "vfilter_box_u64_s1" => vfl!(boxed, u64, Box<[u64]>, [u64; 1], FuseLge3NoShards, 64),
         "vfilter_box_u8" => vfl!(boxed, u8, Box<[u8]>, [u64; 2], FuseLge3Shards, 8),
         "vfilter_bfv" => vfl!(bfv, usize, BitFieldVec<usize>, [u64; 1], FuseLge3NoShards, 1 + (c.seed % 64) as usize),
         "vfilter_mwhc" => vfl!(boxed, u16, Box<[u16]>, [u64; 2], Mwhc3NoShards, 16),
